@@ -747,6 +747,43 @@ func extractLocks(repo string, o *out) {
 		o.lines = append(o.lines, fmt.Sprintf("def condBroadcastsAfterUnlock : Nat := %d", after))
 		_ = total
 	}
+	// round-robin cursor (C09): rrRefId is advanced only by `atomic.AddUint32(&….rrRefId, 1)`
+	{
+		af := parse(filepath.Join(repo, "grpcgcp/gcp_balancer.go"))
+		adds, others := 0, 0
+		mentions := func(e ast.Expr) bool { return strings.Contains(exprString(e), "rrRefId") }
+		ast.Inspect(af, func(n ast.Node) bool {
+			switch x := n.(type) {
+			case *ast.CallExpr:
+				if se, ok := x.Fun.(*ast.SelectorExpr); ok && rootIdent(se.X) == "atomic" && len(x.Args) > 0 && mentions(x.Args[0]) {
+					switch se.Sel.Name {
+					case "AddUint32":
+						if len(x.Args) == 2 && exprString(x.Args[1]) == "1" {
+							adds++
+						} else {
+							others++
+						}
+					case "LoadUint32":
+					default:
+						others++
+					}
+				}
+			case *ast.AssignStmt:
+				for _, l := range x.Lhs {
+					if mentions(l) {
+						others++
+					}
+				}
+			case *ast.IncDecStmt:
+				if mentions(x.X) {
+					others++
+				}
+			}
+			return true
+		})
+		o.lines = append(o.lines, fmt.Sprintf("def rrCursorAtomicAdds : Nat := %d", adds))
+		o.lines = append(o.lines, fmt.Sprintf("def rrCursorOtherWrites : Nat := %d", others))
+	}
 	o.extraFiles = map[string]string{"Accesses.lean": "/- GENERATED by tools/extract (locks.go) from /repo's working tree on every run. Do not edit. -/\nimport GcpVerif.Model.Sync\nnamespace GcpVerif.Generated\nopen GcpVerif.Sync\n\ndef accesses : List Access := [\n" +
 		strings.Join(uniq, ",\n") + "\n]\n\ndef acquisitions : List Acquisition := [\n" + strings.Join(acqLines, ",\n") + "\n]\n\nend GcpVerif.Generated\n"}
 }
